@@ -7,10 +7,11 @@
     remove, time passing, restart) from the empty table.
 
     [hist_ok h] (and [op_ok o] for one operation) is what is assumed of the
-    operations: DHCP messages carry 6-byte hardware addresses, and neither a
-    message nor a reservation uses the all-zero hardware address, which the
-    server keeps for block-listed addresses ([live m]: [m] is not all-zero).
-    Reservations may carry 6-, 8- or 20-byte addresses. *)
+    operations: hardware addresses (in messages and reservations) have 6, 8
+    or 20 bytes, the lengths the lease file can hold ([valid_mac]), and
+    neither a message nor a reservation uses the all-zero hardware address,
+    which the server keeps for block-listed addresses ([live m]: [m] is not
+    all-zero). *)
 From Coq Require Import List ZArith NArith Permutation.
 From AGH Require Import Base.Run Model.Dhcp4 Proofs.Dhcp4 Proofs.Dhcp4Names Proofs.Dhcp4Disk Proofs.Dhcp4Alloc.
 Import ListNotations.
@@ -22,8 +23,7 @@ Local Open Scope N_scope.
     not a static lease's address; static addresses inside the subnet and not
     the gateway; the address index, the leased-offset set and the hostname
     index describe the list exactly; the file lists no address and no client
-    twice; dynamic leases carry 6-byte hardware addresses, static ones what
-    ValidateMAC accepts. *)
+    twice; every lease carries a hardware address the lease file can hold. *)
 Theorem C10_inv_reachable : forall c h, valid_conf c -> hist_ok h ->
   let s := run c h empty_state in
   NoDup (map l_ip (leases s)) /\ NoDup (filter live (map l_mac (leases s))) /\
@@ -65,7 +65,7 @@ Print Assumptions C10_reservation_respected.
     lease (block-list entries are leases) and does not answer the probe:
     OFFER (message type 2) of a pool address that was in no lease and does
     not answer the probe, now reserved for that client. *)
-Theorem C10_offer_liveness : forall c h now busy mac ip, hist_ok h -> mac_len mac = 6 ->
+Theorem C10_offer_liveness : forall c h now busy mac ip, hist_ok h -> valid_mac mac = true ->
   let s := run c h empty_state in
   ~ In mac (map l_mac (leases s)) ->
   in_pool c ip = true -> ~ In ip (map l_ip (leases s)) -> mem_ip ip busy = false ->
@@ -77,7 +77,7 @@ Print Assumptions C10_offer_liveness.
 
 (** Address conflicts: whatever a DISCOVER from a client without a lease is
     answered with, the address did not answer the probe. *)
-Theorem C10_conflict_not_offered : forall c h now busy mac s' mt yi, hist_ok h -> mac_len mac = 6 ->
+Theorem C10_conflict_not_offered : forall c h now busy mac s' mt yi, hist_ok h -> valid_mac mac = true ->
   let s := run c h empty_state in
   ~ In mac (map l_mac (leases s)) ->
   step c s now busy (ODiscover mac) = (s', ROk mt yi) -> mem_ip yi busy = false.
@@ -152,7 +152,7 @@ Print Assumptions C10_messages_keep_statics.
     address itself is released, not block-listed: the code leaves it to the
     probe). *)
 Theorem C10_decline_conflict_not_offered : forall c s now busy mac reqip ci s' mt yi,
-  Inv c s -> mac_len mac = 6 ->
+  Inv c s -> valid_mac mac = true ->
   decline c now busy mac reqip ci s = (s', ROk mt yi) -> yi <> 0 -> mem_ip yi busy = false.
 Proof. exact decline_not_busy. Qed.
 Print Assumptions C10_decline_conflict_not_offered.
@@ -184,14 +184,15 @@ Theorem C10_recycled_is_first_expired : forall c now mac s i,
 Proof. exact recycled_is_first_expired. Qed.
 Print Assumptions C10_recycled_is_first_expired.
 
-(** Why [hist_ok] asks for one length of hardware address in messages: the
-    pinned code recycles an expired lease with copy(), which keeps the length
-    of the previous owner's address; without the assumption "one lease per
-    client" fails (witness: an 8-byte address whose first six bytes are
-    another client's; reproduced on the real server, reported). *)
-Theorem C10_one_lease_per_client_needs_hist_ok_refuted : ~ one_lease_per_client_statement.
-Proof. exact mixed_hwaddr_refuted. Qed.
-Print Assumptions C10_one_lease_per_client_needs_hist_ok_refuted.
+(** Clients with hardware addresses of different lengths: an 8-byte client
+    whose address starts with another client's six bytes recycles an expired
+    lease and holds it under its own address (before repair 58b961b the lease
+    carried the other client's address). *)
+Example C10_mixed_history_ok :
+  hist_ok mixed_history /\
+  map l_mac (leases (run example_conf mixed_history empty_state)) =
+    [mac6 1; 18446744073709617159; mac6 3; mac6 4].
+Proof. exact mixed_history_ok. Qed.
 
 (** The configurations the server runs with are the ones Validate accepts
     (start < end, gateway outside the pool, both ends inside the subnet: the
@@ -226,7 +227,7 @@ Print Assumptions C10_inv_from.
     lease; the premises of the theorems above hold there. *)
 Example C10_premises_satisfiable :
   valid_conf example_conf /\ hist_ok example_history /\
-  mac_len (mac6 9) = 6 /\ is_blocklisted (mac6 9) = false /\
+  valid_mac (mac6 9) = true /\ is_blocklisted (mac6 9) = false /\
   let s := run example_conf example_history empty_state in
   length (leases s) = 4%nat /\
   NamesStable (leases s) /\
